@@ -62,6 +62,12 @@ def mutate_line(kind, line, req_name):
         return req_name
     if kind == "nocomma":               # conforming: payload follows the name directly
         return line.replace(",", "", 1)
+    if kind == "echo":                  # conforming: the payload begins with the name's letters
+        return req_name + "," + req_name + ",1"
+    if kind == "commapay":              # conforming: the payload itself begins with a comma
+        return req_name + ",,7"
+    if kind == "shifted":               # mismatched: the name occurs, but not at the start
+        return "0," + req_name + ",1"
     raise ValueError(kind)
 
 
@@ -98,6 +104,7 @@ class FakePort:
         self.produced = []              # every reply line the board emitted (even if unread)
         self._inbuf = ""
         self.timeout = 1.0
+        self.fail_next_close = False
 
     # -- choice helper ----------------------------------------------------------------
     def _choose(self, label, arity, kind, values=None):
@@ -184,6 +191,11 @@ class FakePort:
 
     def close(self):
         self.close_calls += 1
+        if self.fail_next_close and not self.closed:    # scripted (not chosen) close fault
+            self.fail_next_close = False
+            self.closed = True
+            self.faults.append((self.tag, "close_exc", 1))
+            raise serial.SerialException("injected close fault")
         if self.profile.close_exc and not self.closed:
             if self._choose(f"close{self.close_calls}", 2, "close_exc"):
                 self.closed = True
